@@ -29,34 +29,30 @@ theorem wm_item (it : Item) (w : WM) (hf : w.fresh = false) (hm : it.marked = tr
   | incl l => simp [emit, wmRun, wmStep, line, hf]
   | blockCall l anon => simp [Item.marked] at hm
   | stub l o => simp [Item.marked] at hm
-  | inherit l => simp [Item.marked] at hm
+  | inherit l => simp [emit, wmRun, wmStep, line, quiet, dedent, hf]
   | callableHead l lineArg decorated hdrObs pushBuf =>
-    simp only [Item.marked, Bool.and_eq_true, Bool.not_eq_true', beq_iff_eq] at hm
-    obtain ⟨hd, hl⟩ := hm
-    subst hd; subst hl
-    cases hdrObs <;> cases pushBuf <;> simp [emit, wmRun, wmStep, line, quiet, hf]
+    simp only [Item.marked, beq_iff_eq] at hm
+    subst hm
+    cases decorated <;> cases hdrObs <;> cases pushBuf <;> simp [emit, wmRun, wmStep, line, quiet, hf]
   | callableTail => simp [emit, wmRun, wmStep, dedent, hf]
   | inlineDefHead l decorated hdrObs pushBuf =>
-    simp only [Item.marked, Bool.and_eq_true, Bool.not_eq_true'] at hm
-    obtain ⟨hd, ho⟩ := hm
-    subst hd; subst ho
-    cases pushBuf <;> simp [emit, wmRun, wmStep, line, quiet, hf]
+    cases decorated <;> cases hdrObs <;> cases pushBuf <;> simp [emit, wmRun, wmStep, line, quiet, hf]
   | inlineDefTail => simp [emit, wmRun, wmStep, dedent, hf]
-  | finish l plain callstack returns retObs =>
+  | finish l plain callstack returns retObs mark =>
     simp only [Item.marked, Bool.or_eq_true, Bool.and_eq_true, Bool.not_eq_true'] at hm
-    rcases hm with hp | ⟨hr, ho⟩
+    rcases hm with (hp | hk) | ⟨hr, ho⟩
     · subst hp
       cases callstack <;> simp [emit, wmRun, wmStep, quiet, dedent, hf]
+    · subst hk
+      cases plain <;> cases callstack <;> cases returns <;> cases retObs <;>
+        simp [emit, wmRun, wmStep, line, quiet, dedent, hf]
     · subst hr; subst ho
-      cases plain <;> cases callstack <;> simp [emit, wmRun, wmStep, line, quiet, dedent, hf]
-  | callHead => simp [emit, wmRun, wmStep, quiet, hf]
-  | callTail l => simp [Item.marked] at hm
+      cases plain <;> cases callstack <;> cases mark <;> simp [emit, wmRun, wmStep, line, quiet, dedent, hf]
+  | callHead l => simp [emit, wmRun, wmStep, quiet, hf]
+  | callTail l => simp [emit, wmRun, wmStep, line, quiet, dedent, hf]
   | textTagHead => simp [emit, wmRun, wmStep, quiet, hf]
-  | textTagTail l => simp [Item.marked] at hm
-  | cacheHead l hdrObs =>
-    simp only [Item.marked, Bool.not_eq_true'] at hm
-    subst hm
-    simp [emit, wmRun, wmStep, line, quiet, hf]
+  | textTagTail l => simp [emit, wmRun, wmStep, line, quiet, dedent, hf]
+  | cacheHead l hdrObs => cases hdrObs <;> simp [emit, wmRun, wmStep, line, quiet, hf]
   | cacheTail l b => simp [Item.marked] at hm
   | mark l => simp [Item.marked] at hm
   | mid l obs nl =>
